@@ -627,7 +627,7 @@ def run(ctx):
     for e, ds, cfgt, off in metas:
         if any(o.startswith("BAD") for o in outs[off:off + 3]):
             raise RuntimeError("driver rejected: " + repr(outs[off:off + 3]) + X.to_src(e))
-        one_case(ctx, e, ds, cfgt, outs[off:off + 3], "gen")
+        X.guarded(ctx, one_case, ctx, e, ds, cfgt, outs[off:off + 3], "gen")
 
 
 def replay(ctx, data):
@@ -645,4 +645,4 @@ def replay(ctx, data):
     log = []
     for label, r in render_variants(e, cfgt, X.make_data(random.Random(case["data_seed"]), log), ctx.rng):
         print("real :", label, "=>", r)
-    one_case(ctx, e, case["data_seed"], cfgt, outs, "replay")
+    X.guarded(ctx, one_case, ctx, e, case["data_seed"], cfgt, outs, "replay")
